@@ -21,10 +21,15 @@ import (
 )
 
 const (
-	Main      = -1
-	maxTasks  = 16
-	maxDec    = 1 << 20
-	StepCap   = 200_000_000
+	Main     = -1
+	maxTasks = 16
+	maxDec   = 1 << 20
+	// StepCap: a no-progress bound, not a length bound: the number of statements the
+	// tasks may execute without ANY task completing an operation. The most
+	// expensive single operation (a 20-term multi-scalar call under the purego
+	// build, where the generic multiplication is instrumented too) needs a few
+	// million.
+	StepCap   = 60_000_000
 	spinLimit = 50_000
 )
 
@@ -67,34 +72,40 @@ type taskState struct {
 	same      int
 	inClosure int
 	decCursor int
+	// busy-wait detection: a small set of recently seen sites and the number of
+	// consecutive yields that stayed inside that set
+	recent   [16]int
+	nRecent  int
+	sinceNew int
 }
 
 var st struct {
-	turn        int32
-	cur         int
-	active      bool
-	nTasks      int
-	tasks       [maxTasks]taskState
-	nSites      int
-	counts      []uint32 // [task*nSites + site]
-	warm        []uint32
-	countWarm   bool
-	total       uint64
-	gates       []gate
-	rng         [4]uint64
-	policy      Policy
-	pctNext     int
-	replay      bool
-	decs        [][]Decision // replay: per task, in order
-	log         []Decision
-	logOverflow bool
-	deadlock    bool
-	stepCap     bool
-	hot         []bool
-	syncSite    []bool
+	turn         int32
+	cur          int
+	active       bool
+	nTasks       int
+	tasks        [maxTasks]taskState
+	nSites       int
+	counts       []uint32 // [task*nSites + site]
+	warm         []uint32
+	countWarm    bool
+	total        uint64
+	lastProgress uint64 // value of total when an operation last completed
+	gates        []gate
+	rng          [4]uint64
+	policy       Policy
+	pctNext      int
+	replay       bool
+	decs         [][]Decision // replay: per task, in order
+	log          []Decision
+	logOverflow  bool
+	deadlock     bool
+	stepCap      bool
+	hot          []bool
+	syncSite     []bool
 	// reach probes
-	switches, gateBlocks, preemptInClosure, gateContention, gateCalls uint64
-	switchHash                                                        uint64
+	switches, gateBlocks, preemptInClosure, gateContention, gateCalls, gateCallsOpen uint64
+	switchHash                                                                       uint64
 }
 
 //go:norace
@@ -229,18 +240,34 @@ func yieldHook(site int) {
 	st.counts[t*st.nSites+site]++
 	st.total++
 	ts.yields++
-	if st.total > StepCap {
+	if st.total-st.lastProgress > StepCap {
 		st.stepCap = true
 		st.active = false
 		handOff(t, Main, true)
 		return
 	}
-	if site == ts.lastSite {
-		ts.same++
-	} else {
-		ts.lastSite = site
-		ts.same = 0
+	// a task that keeps executing the same few statements (a poll loop may span
+	// several sites) is busy-waiting
+	inSet := false
+	for k := 0; k < ts.nRecent; k++ {
+		if ts.recent[k] == site {
+			inSet = true
+			break
+		}
 	}
+	if inSet {
+		ts.sinceNew++
+	} else {
+		if ts.nRecent < len(ts.recent) {
+			ts.recent[ts.nRecent] = site
+			ts.nRecent++
+		} else {
+			ts.recent[0] = site
+			ts.nRecent = 1
+		}
+		ts.sinceNew = 0
+	}
+	ts.same = ts.sinceNew
 	next := -2
 	kind := 0
 	if st.replay {
@@ -271,7 +298,9 @@ func yieldHook(site int) {
 		}
 	}
 	if next < 0 && ts.same > spinLimit {
-		// the task keeps executing one statement: a busy-wait. Let someone else run.
+		// the task keeps executing the same few statements: a busy-wait. Let someone else run.
+		ts.sinceNew = 0
+		ts.nRecent = 0
 		ts.same = 0
 		if n := pickOther(t); n >= 0 {
 			next, kind = n, 3
@@ -355,6 +384,9 @@ func onceEnter(p unsafe.Pointer) (int, int) {
 	st.gateCalls++
 	g := gateFor(p)
 	t := st.cur
+	if st.gates[g].state != 2 {
+		st.gateCallsOpen++
+	}
 	switch st.gates[g].state {
 	case 2:
 		return 0, g
@@ -405,12 +437,15 @@ func onceDo(o *sync.Once, f func()) {
 			o.Do(f)
 			return
 		case 1:
-			o.Do(func() {
-				onceClosure(g, true)
-				f()
-				onceClosure(g, false)
-			})
-			onceExit(g)
+			// the real Once is done even if f panics: release the gate in any case
+			func() {
+				defer onceExit(g)
+				o.Do(func() {
+					onceClosure(g, true)
+					defer onceClosure(g, false)
+					f()
+				})
+			}()
 			return
 		}
 	}
@@ -425,6 +460,9 @@ func mutexHook(p unsafe.Pointer, kind int) {
 		return
 	}
 	st.gateCalls++
+	if kind == 0 || kind == 2 {
+		st.gateCallsOpen++
+	}
 	for {
 		g := gateFor(p)
 		t := st.cur
@@ -470,6 +508,7 @@ type Result struct {
 	Switches                                 uint64
 	GateBlocks                               uint64
 	GateCalls                                uint64
+	GateCallsOpen                            uint64
 	PreemptInClosure                         uint64
 	SwitchHash                               uint64
 	Log                                      []Decision
@@ -490,6 +529,7 @@ func setup(n int, seed uint64, pol Policy, replay [][]Decision) {
 		st.syncSite[i] = s.Sync
 	}
 	st.total = 0
+	st.lastProgress = 0
 	st.gates = st.gates[:0]
 	st.log = make([]Decision, 0, 4096)
 	st.policy = pol
@@ -503,7 +543,16 @@ func setup(n int, seed uint64, pol Policy, replay [][]Decision) {
 	st.turn = Main
 	st.cur = Main
 	st.deadlock, st.stepCap = false, false
-	st.switches, st.gateBlocks, st.preemptInClosure, st.gateContention, st.gateCalls = 0, 0, 0, 0, 0
+	st.switches, st.gateBlocks, st.preemptInClosure, st.gateContention, st.gateCalls, st.gateCallsOpen = 0, 0, 0, 0, 0, 0
+}
+
+// OpBoundary is called by a task body when it has completed an operation.
+//
+//go:norace
+func OpBoundary() {
+	if st.active {
+		st.lastProgress = st.total
+	}
 }
 
 //go:norace
@@ -532,6 +581,7 @@ func collect(res *Result) {
 	res.Deadlock, res.StepCap, res.LogOverflow = st.deadlock, st.stepCap, st.logOverflow
 	res.Yields, res.Switches, res.GateBlocks, res.PreemptInClosure, res.SwitchHash = st.total, st.switches, st.gateBlocks, st.preemptInClosure, st.switchHash
 	res.GateCalls = st.gateCalls
+	res.GateCallsOpen = st.gateCallsOpen
 	res.Log = st.log
 	for t := 0; t < st.nTasks; t++ {
 		res.Counts = append(res.Counts, st.counts[t*st.nSites:(t+1)*st.nSites])
@@ -594,10 +644,12 @@ func Run(bodies []func(), seed uint64, pol Policy, replay [][]Decision, watchdog
 	collect(res)
 	if !res.Deadlock && !res.StepCap {
 		wg.Wait() // every task has returned: a real happens-before edge for what follows
+		field.VerifSimYield = nil
+		field.VerifSimOnceDo = nil
+		field.VerifSimMutex = nil
 	}
-	field.VerifSimYield = nil
-	field.VerifSimOnceDo = nil
-	field.VerifSimMutex = nil
+	// (after a deadlock or step cap tasks are still parked inside the library: the
+	// hooks stay in place, the process is about to report and exit)
 	return res, first
 }
 
